@@ -22,6 +22,7 @@ func init() {
 			return
 		}
 		info := pk.TypesInfo
+		defs := localDefs(info, fd.Body)
 		// `additional` = the []string local that is returned as 2nd result; B = ident condition of a case/if whose body appends to it
 		isAppendTo := func(nd ast.Node) types.Object {
 			as, ok := nd.(*ast.AssignStmt)
@@ -37,7 +38,8 @@ func init() {
 			if !ok1 || !ok2 || info.ObjectOf(l) != info.ObjectOf(a0) {
 				return nil
 			}
-			if _, ok := unparen(call.Args[1]).(*ast.IndexExpr); !ok {
+			// the appended element: params[i], or a local defined once as params[i] (`arg := params[i]`)
+			if _, ok := defs.resolve1(info, call.Args[1]).(*ast.IndexExpr); !ok {
 				return nil
 			}
 			return info.ObjectOf(l)
